@@ -588,12 +588,12 @@ def _lf_current(ctx, a, c):
     return Opaque("LevelFilter::OFF")
 
 
-@model("<Level as PartialOrd>::le", doc="tracing: `level <= filter`: false against the OFF filter, unconstrained against the static max level")
+@model("<Level as PartialOrd>::le", doc="tracing: `level <= filter`: false against the runtime OFF filter (no subscriber); true against STATIC_MAX_LEVEL, which is TRACE because no tracing max_level_* feature is enabled")
 def _level_le(ctx, a, c):
     b = deref(ctx, a[1])
     if isinstance(b, Opaque) and b.what == "LevelFilter::OFF":
         return z3.BoolVal(False)
-    return ctx.fresh_bool("static_level_enabled")
+    return z3.BoolVal(True)
 
 
 @model("DefaultCallsite::interest", doc="tracing: Interest::never() without a subscriber")
